@@ -153,6 +153,11 @@ def check_sample(case, part):
             kw["s"] = xu.with_unit(pm.LogNormal("s", np.log(0.4), 0.6), u.km / u.s)
         if custom in ("omega_vonmises", "both"):
             pars["omega"] = xu.with_unit(pm.VonMises("omega", 1.0, 2.0), u.rad)
+        if custom in ("e_truncated",):
+            # composite pymc distributions (Truncated / Mixture) are valid priors too
+            pars["e"] = xu.with_unit(pm.Truncated("e", pm.Beta.dist(0.867, 3.03), lower=None, upper=0.6), u.one)
+        if custom in ("s_mixture",):
+            kw["s"] = xu.with_unit(pm.Mixture("s", w=[0.3, 0.7], comp_dists=[pm.LogNormal.dist(np.log(0.1), 0.3), pm.LogNormal.dist(np.log(2.0), 0.5)]), u.km / u.s)
         if custom in ("M0_uniform",):
             pars["M0"] = xu.with_unit(pm.Uniform("M0", 0.0, 2 * np.pi), u.rad)
         if custom in ("e_given_P", "e_given_P_rev"):
@@ -187,6 +192,14 @@ def check_sample(case, part):
             decl = -np.log(s["P"].value) + st.beta(0.867, 3.03 + 20.0 / P).logpdf(e)
         else:
             decl = -np.log(s["P"].value) + st.beta(*KIPPING["Kipping13Global"]).logpdf(e)
+        if custom == "e_truncated":
+            decl = -np.log(s["P"].value) + st.beta(0.867, 3.03).logpdf(e) - np.log(st.beta(0.867, 3.03).cdf(0.6))
+            if np.any(e > 0.6):
+                part.violation(c2, "draws of a prior truncated at e < 0.6 exceed the bound", observed=float(e.max()))
+                return
+        if custom == "s_mixture":
+            sv_ = s["s"].to_value(u.km / u.s)
+            decl = decl + np.log(0.3 * st.lognorm(0.3, scale=0.1).pdf(sv_) + 0.7 * st.lognorm(0.5, scale=2.0).pdf(sv_))
         if custom in ("s_lognormal", "both"):
             decl = decl + st.lognorm(0.6, scale=0.4).logpdf(s["s"].to_value(u.km / u.s))
         if custom in ("omega_vonmises", "both"):
@@ -256,7 +269,7 @@ def build(quick, seed):
                                              generate_linear=gl, P_unit=Pu, size=16, seeds=[0, 1] if quick else [0, 1, 2, 3]))
     samp.append(dict(kind="sample", P_lim=[0.1, 1e7], sigma_K0=30.0, P0_days=365.25, sigma_v=[100.0, 0.5], poly_trend=1, generate_linear=True,
                      P_unit="day", size=64, seeds=[0, 1, 2, 3], probe=True))
-    for custom in ("s_lognormal", "omega_vonmises", "both", "M0_uniform", "e_given_P", "e_given_P_rev"):
+    for custom in ("s_lognormal", "omega_vonmises", "both", "M0_uniform", "e_given_P", "e_given_P_rev", "e_truncated", "s_mixture"):
         for gl in (False, True):
             samp.append(dict(kind="sample", P_lim=[1.0, 1000.0], sigma_K0=30.0, P0_days=365.25, sigma_v=[100.0, 0.5], poly_trend=1, generate_linear=gl,
                              P_unit="day", size=16, seeds=[0, 1], custom=custom))
